@@ -206,6 +206,9 @@ pub fn plan(p: u32, tier: &str) -> Vec<Run> {
             add(chains(true), families::chains(6));
             add(shapes_spec("eph-shapes-D2", 2, false), shapes_named(&eph_shapes));
             if thorough {
+                let mut l3n = late("late3xun-OE-k1", true);
+                l3n.edit_bound = Some(1);
+                add(l3n, families::late3xun_oe());
                 // the same families under the reversed node / edge declaration orders, faults included
                 let of = |mut x: Spec, name: &str| {
                     x.orders = Orders::Few;
@@ -320,6 +323,9 @@ pub fn plan(p: u32, tier: &str) -> Vec<Run> {
             add(late("late2x", true), families::late_gadget(2, true));
             add(late3u(2), families::late3xu_oe());
             add(late("latepair", true), families::late_pair());
+            let mut l4 = late("late4row-k1", true);
+            l4.edit_bound = Some(1);
+            add(l4, families::late4_row());
             add(late("bigshapes", true), families::big_shapes());
             add(late("ephtrees", true), families::eph_trees());
             add(late("ephtrees3", true), families::eph_trees3());
@@ -329,6 +335,9 @@ pub fn plan(p: u32, tier: &str) -> Vec<Run> {
             add(o, families::slots(3));
             add(shapes_spec("shapes-D2", 2, false), families::shapes(true));
             if thorough {
+                let mut l3n = late("late3xun-OE-k1", true);
+                l3n.edit_bound = Some(1);
+                add(l3n, families::late3xun_oe());
                 // the same families under the reversed node / edge declaration orders, faults included
                 let of = |mut x: Spec, name: &str| {
                     x.orders = Orders::Few;
@@ -380,6 +389,9 @@ pub fn plan(p: u32, tier: &str) -> Vec<Run> {
             add(late("late2x", true), families::late_gadget(2, true));
             add(late3u(2), families::late3xu_oe());
             add(late("latepair", true), families::late_pair());
+            let mut l4 = late("late4row-k1", true);
+            l4.edit_bound = Some(1);
+            add(l4, families::late4_row());
             add(late("bigshapes", true), families::big_shapes());
             add(late("ephtrees", true), families::eph_trees());
             add(late("ephtrees3", true), families::eph_trees3());
@@ -387,6 +399,9 @@ pub fn plan(p: u32, tier: &str) -> Vec<Run> {
             add(shapes_spec("shapes-D2", 2, false), families::shapes(true));
             add(rename("rename-prod", Conv::Parts, Cmp::Prod), families::rename_opts(false, Kind::O, false));
             if thorough {
+                let mut l3n = late("late3xun-OE-k1", true);
+                l3n.edit_bound = Some(1);
+                add(l3n, families::late3xun_oe());
                 // the same families under the reversed node / edge declaration orders, faults included
                 let of = |mut x: Spec, name: &str| {
                     x.orders = Orders::Few;
@@ -433,6 +448,9 @@ pub fn plan(p: u32, tier: &str) -> Vec<Run> {
             add(late("late2x", true), families::late_gadget(2, true));
             add(late3u(2), families::late3xu_oe());
             add(late("latepair", true), families::late_pair());
+            let mut l4 = late("late4row-k1", true);
+            l4.edit_bound = Some(1);
+            add(l4, families::late4_row());
             add(late("bigshapes", true), families::big_shapes());
             add(late("ephtrees", true), families::eph_trees());
             add(late("ephtrees3", true), families::eph_trees3());
@@ -440,6 +458,9 @@ pub fn plan(p: u32, tier: &str) -> Vec<Run> {
             add(s("S3D2-volatile", 2, m), families::slots_volatile(3));
             add(shapes_spec("shapes-D2", 2, false), families::shapes(true));
             if thorough {
+                let mut l3n = late("late3xun-OE-k1", true);
+                l3n.edit_bound = Some(1);
+                add(l3n, families::late3xun_oe());
                 // the same families under the reversed node / edge declaration orders, faults included
                 let of = |mut x: Spec, name: &str| {
                     x.orders = Orders::Few;
@@ -480,7 +501,7 @@ pub fn plan(p: u32, tier: &str) -> Vec<Run> {
                 // with the graphs that lack one free slot: the interrupted evaluation may add a consumer
                 let mut l2 = late("late2x+removals+follow", true);
                 l2.follow = true;
-                add(l2, families::with_slot_removals(families::late_gadget(2, true)));
+                add(l2, families::with_slot_removals(families::late_gadget_full(2, true, true, None, false)));
             } else {
                 let mut l2 = late("late2x+follow", true);
                 l2.follow = true;
@@ -550,7 +571,7 @@ pub fn plan(p: u32, tier: &str) -> Vec<Run> {
             add(s3(true), families::slots(3));
             add(s4(false), families::slots(4));
             add(s4d2ff(), families::slots(4));
-            add(late("late2x+removals", true), families::with_slot_removals(families::late_gadget(2, true)));
+            add(late("late2x+removals", true), families::with_slot_removals(families::late_gadget_full(2, true, true, None, false)));
             add(deep3("S3D4-ff", 4, vec![false; 4]), families::slots(3));
             add(deep3("S3D3-f010", 3, vec![false, true, false]), families::slots(3));
             add(rename("rename-prod", Conv::Parts, Cmp::Prod), families::rename_opts(false, Kind::O, false));
@@ -627,6 +648,9 @@ pub fn plan(p: u32, tier: &str) -> Vec<Run> {
             add(chains(true), families::chains(6));
             add(shapes_spec("shapes-D2", 2, false), families::shapes(true));
             if thorough {
+                let mut l3n = late("late3xun-OE-k1", true);
+                l3n.edit_bound = Some(1);
+                add(l3n, families::late3xun_oe());
                 // the same families under the reversed node / edge declaration orders, faults included
                 let of = |mut x: Spec, name: &str| {
                     x.orders = Orders::Few;
@@ -756,6 +780,9 @@ pub fn plan(p: u32, tier: &str) -> Vec<Run> {
             add(late("late2x", true), families::late_gadget(2, true));
             add(late3u(2), families::late3xu_oe());
             add(late("latepair", true), families::late_pair());
+            let mut l4 = late("late4row-k1", true);
+            l4.edit_bound = Some(1);
+            add(l4, families::late4_row());
             add(late("bigshapes", true), families::big_shapes());
             add(late("ephtrees", true), families::eph_trees());
             add(late("ephtrees3", true), families::eph_trees3());
@@ -763,6 +790,9 @@ pub fn plan(p: u32, tier: &str) -> Vec<Run> {
             add(s("S3D2-volatile", 2, m), families::slots_volatile(3));
             add(shapes_spec("shapes-D2", 2, false), families::shapes(true));
             if thorough {
+                let mut l3n = late("late3xun-OE-k1", true);
+                l3n.edit_bound = Some(1);
+                add(l3n, families::late3xun_oe());
                 // the same families under the reversed node / edge declaration orders, faults included
                 let of = |mut x: Spec, name: &str| {
                     x.orders = Orders::Few;
@@ -1178,7 +1208,8 @@ pub fn cmd_run(args: &[String]) -> i32 {
         "kindswap2" => families::slots_kindswap(2),
         "kindswap3" => families::slots_kindswap(3),
         "late2" => families::late_gadget(2, true),
-        "late2r" => families::with_slot_removals(families::late_gadget(2, true)),
+        "late4row" => families::late4_row(),
+        "late2r" => families::with_slot_removals(families::late_gadget_full(2, true, true, None, false)),
         "late3" => families::late_gadget(3, false),
         "late3x" => families::late_gadget(3, true),
         "late3xu-OOO" => families::late_gadget_opts(3, true, false, Some(vec![Kind::O, Kind::O, Kind::O])),
